@@ -4,7 +4,7 @@
 From Coq Require Import Reals List Arith Lia Lra.
 From TLV Require Import Base.Shape Base.PyList Base.Tensor Base.Ops Base.RSum Model.Descent
   Model.DescentReport Proofs.DescentProofs Proofs.DescentProofsHals Proofs.DescentProofsLink Proofs.DescentProofsOrth Proofs.DescentProofsNorm Proofs.DescentProofsNN Proofs.DescentProofsReg Proofs.DescentProofsTucker Proofs.DescentProofsCmtf Proofs.DescentProofsTkReg Proofs.DescentProofsTR Proofs.DescentProofsUnfold
-  Proofs.DescentProofsSpec Proofs.DescentProofsSweeps Proofs.DescentProofsSweeps2 Proofs.DescentProofsReport.
+  Proofs.DescentProofsSpec Proofs.DescentProofsSweeps Proofs.DescentProofsSweeps2 Proofs.DescentProofsReport Proofs.DescentProofsP2Tie Proofs.DescentProofsStatic Proofs.DescentProofsNNNorm.
 Import ListNotations.
 Open Scope R_scope.
 
@@ -193,9 +193,10 @@ Theorem C07_nn_history_monotone : forall (X : tensor R) (w : list R) (rank : nat
 Proof. exact nn_history_monotone. Qed.
 Print Assumptions C07_nn_history_monotone.
 
-(* HOOI (partial_tucker) and PARAFAC2 (_compute_projections): proved is the algebra for matrices with orthonormal columns;
-   the optimality of the SVD answer is a NAMED HYPOTHESIS (Ky Fan's maximum principle / orthogonal Procrustes), hence _partial.
-   Not formalised: the multi-mode identity ||X - core x U_j||^2 = ||X||^2 - ||core||^2 that ties Y to the Tucker objective. *)
+(* HOOI (partial_tucker) and PARAFAC2 (_compute_projections): the algebra for matrices with orthonormal columns; in the _partial
+   theorems the optimality of the SVD answer is a NAMED HYPOTHESIS (Ky Fan's maximum principle / orthogonal Procrustes).  Round 5 proves
+   both principles from spectral certificates (C07_ky_fan_bound, C07_procrustes_bound below): the _partial theorems are kept, the
+   certificate versions C07_hooi_block_descent, C07_hooi_unfolding_block_descent, C07_parafac2_projection_descent supersede them. *)
 Theorem C07_hooi_residual : forall (m r p : nat) (U Y : fmat), orthonormal m r U ->
   frob2 m p (msub Y (mmul r U (mmul m (mT U) Y))) = frob2 m p Y - frob2 r p (mmul m (mT U) Y).
 Proof. exact hooi_residual. Qed.
@@ -514,6 +515,55 @@ Theorem C07_tkreg_history_monotone : forall (Xsl : list (tensor R)) (ysl : list 
 Proof. exact tkreg_history_monotone. Qed.
 Print Assumptions C07_tkreg_history_monotone.
 
+
+(* PARAFAC2's inner step: the error of the projected slices IS the CP objective of the third-order tensor whose frontal slices they are
+   (entry (i,j,c) at offset (i R + j) K + c; cp_slice w facs rank i = B diag(w . a_i) C'), so CP-ALS sweeps on that tensor satisfy the
+   inner-step hypothesis of C07_parafac2_iter_descent under the solve certificate alone *)
+Theorem C07_cp_sqerr_slices : forall (T : tensor R) (I Rr K : nat) (w : list R) (facs : list (list (list R))) (rank : nat),
+  shape T = [I; Rr; K] ->
+  cp_sqerr Rops T w facs rank = rsum I (fun i => frob2 Rr K (msub (slice3 Rr K T i) (cp_slice w facs rank i))).
+Proof. exact cp_sqerr_slices. Qed.
+Print Assumptions C07_cp_sqerr_slices.
+Theorem C07_parafac2_inner_step_from_cp : forall (T : tensor R) (I Rr K : nat) (w : list R) (rank : nat)
+  (solve : list (list R) -> list (list R) -> list (list R)) (modes : list nat) (facs : list (list (list R))),
+  shape T = [I; Rr; K] -> sweep_ok T w 0 rank solve modes facs ->
+  rsum I (fun i => frob2 Rr K (msub (slice3 Rr K T i) (cp_slice w (cp_sweep Rops solve T w 0 rank modes facs) rank i)))
+  <= rsum I (fun i => frob2 Rr K (msub (slice3 Rr K T i) (cp_slice w facs rank i))).
+Proof. exact p2_inner_step_from_cp. Qed.
+Print Assumptions C07_parafac2_inner_step_from_cp.
+
+
+(* reference forms of the reported-error formulas, linked to the model once; on every run harness/props/C07_ast.py regenerates the formulas
+   from the current Python sources and coqc re-checks these links against the regenerated terms (corr:C07-static) *)
+Theorem C07_static_cp_reported : forall (X : tensor R) (w : list R) (facs : list (list (list R))) (k rank : nat),
+  (k < length (shape X))%nat -> (k < length facs)%nat ->
+  static_cp_err (sqrt (tnormsq Rops X)) (sqrt (cp_norm2_gram Rops (shape X) w facs rank)) (cp_iprod Rops X w facs k rank) / sqrt (tnormsq Rops X)
+  = cp_rel_err X w rank facs.
+Proof. exact static_cp_reported. Qed.
+Print Assumptions C07_static_cp_reported.
+Theorem C07_static_tk_reported : forall (X : tensor R) (rs : list nat) (Us : list (list (list R))),
+  static_tk_err (sqrt (normsq X)) (sqrt (tk_core_norm2 Rops X rs Us)) = tk_reported X rs Us.
+Proof. exact static_tk_reported. Qed.
+Print Assumptions C07_static_tk_reported.
+
+
+(* non_negative_parafac_hals(normalize_factors=True) renormalises INSIDE the sweep (after every block but the last; the flag of a block):
+   without sparsity such sweeps - any list of (mode, solve | n HALS passes, renormalise?) - never increase ||X - [[w; A..]]||^2; histories *)
+Theorem C07_nn_norm_sweep_descent : forall (X : tensor R) (rank : nat) (eps : R) (l1s : list R) (solve : list (list R) -> list (list R) -> list (list R))
+  (norms : nat -> cpstate -> list R * list R), (forall j : nat, nth j l1s 0 = 0) ->
+  forall (bs : list (nat * blockkind * bool)) (st : cpstate),
+  nnn_sweep_ok X rank eps l1s solve norms bs st -> sq X rank (nnn_sweep X rank eps l1s solve norms bs st) <= sq X rank st.
+Proof. exact nnn_sweep_descent. Qed.
+Print Assumptions C07_nn_norm_sweep_descent.
+Theorem C07_nn_norm_history_monotone : forall (X : tensor R) (rank : nat) (eps : R) (l1s : list R) (solve : list (list R) -> list (list R) -> list (list R))
+  (norms : nat -> cpstate -> list R * list R), (forall j : nat, nth j l1s 0 = 0) ->
+  forall (bs : list (nat * blockkind * bool)) (st : cpstate) (n : nat),
+  run_ok cpstate (nnn_sweep X rank eps l1s solve norms bs) (nnn_sweep_ok X rank eps l1s solve norms bs) n st ->
+  forall i j : nat, (i <= j)%nat -> (j <= n)%nat ->
+  sq X rank (Nat.iter j (nnn_sweep X rank eps l1s solve norms bs) st) <= sq X rank (Nat.iter i (nnn_sweep X rank eps l1s solve norms bs) st).
+Proof. exact nnn_history_monotone. Qed.
+Print Assumptions C07_nn_norm_history_monotone.
+
 (* ---------- non-vacuity: the hypotheses of the theorems above are satisfiable (and the descent can be strict) ---------- *)
 Example C07_cp_nonvacuous :
   let X := mk [2;2]%nat [1;2;3;4] in let w := [1] in let facs := [[[1];[1]]; [[1];[2]]] in
@@ -692,3 +742,53 @@ Qed.
 (* line search: with an arbitrary jump the composite step is defined and descends whenever the sweep does (trivial state space) *)
 Example C07_ls_step_nonvacuous : ls_step R (fun x => x) (fun x => x / 2) (fun _ a => a - 1) 4 = 1.
 Proof. unfold ls_step, ls_choose. destruct (Rlt_dec (4 / 2 - 1) 4); lra. Qed.
+
+(* review r2 1.3: the remaining hypotheses are satisfiable.  Tensor ring of two 1 x 2 x 1 cores fitting X = (1,2)' (1,2) exactly: the new core
+   satisfies the normal equations of the block (old core arbitrary) *)
+Example C07_tr_block_nonvacuous :
+  let X := mk [2;2]%nat [1;2;2;4] in let G := mk [1;2;1]%nat [1;2] in let G0 := mk [1;2;1]%nat [0;0] in
+  forall i j : nat, (i < 2)%nat -> (j < 1 * 1)%nat -> tr_normal_lhs Rops X ([] ++ G0 :: [G]) 0 G i j = 0.
+Proof.
+  cbv zeta. intros i j Hi Hj. assert (j = 0%nat) by lia; subst j. destruct i as [|[|i]]; [| |lia]; vm_compute; ring.
+Qed.
+
+(* Tucker regressor, factor block: one sample X = [1;2] with response 5, core [1]: the factor (1;2)' predicts 5 exactly and satisfies the normal equations *)
+Example C07_tkreg_fac_nonvacuous :
+  let A := [[1];[2]] in
+  forall i b : nat, (i < 2)%nat -> (b < 1)%nat ->
+  tkreg_fac_normal_lhs Rops [mk [2]%nat [1;2]] [5] [1]%nat [1] [[[0];[0]]] 0 A i b = 0 * mget Rops A i b.
+Proof.
+  cbv zeta. intros i b Hi Hb. assert (b = 0%nat) by lia; subst b. destruct i as [|[|i]]; [| |lia]; vm_compute; ring.
+Qed.
+
+(* parafac(normalize_factors=True): the contract of one iteration 'sweep then cp_normalize' is satisfiable *)
+Example C07_sweep_norm_nonvacuous :
+  let X := mk [2;2]%nat [1;2;3;4] in let st := ([1], [[[1];[1]]; [[1];[2]]]) in
+  let solve := fun _ _ : list (list R) => [[1];[11/5]] in
+  sweep_norm_ok X 1 (fun _ _ => ([2], [2])) solve [0%nat] st.
+Proof.
+  cbv zeta. unfold sweep_norm_ok. cbn [shape length fst snd].
+  split; [lia|]. split; [reflexivity|]. split.
+  - split; [|exact I]. split; [simpl; lia|]. split; [simpl; lia|].
+    intros i r Hi Hr. simpl in Hi. assert (r = 0%nat) by lia; subst r.
+    destruct i as [|[|i]]; [| |lia]; vm_compute; field.
+  - cbn [seq normalize_ok fst snd].
+    assert (H : forall k (s0 : cpstate), scales_ok (mk [2;2]%nat [1;2;3;4]) 1 [2] [2] k s0).
+    { intros k s0 r Hr. assert (r = 0%nat) by lia; subst r. cbn [nth]. split; [lra | left; reflexivity]. }
+    split; [simpl; lia|]. split; [apply H|]. split; [simpl; lia|]. split; [apply H | exact I].
+Qed.
+
+(* in-sweep renormalisation of non_negative_parafac_hals: one HALS block on mode 0 followed by cp_normalize (constant norms 2) satisfies the contract *)
+Example C07_nn_norm_nonvacuous :
+  let X := mk [2;2]%nat [1;2;3;4] in let st := ([1], [[[1];[1]]; [[1];[2]]]) in
+  nnn_sweep_ok X 1 0 [0;0] (fun _ _ : list (list R) => []) (fun _ _ => ([2], [2])) [((0%nat, BHals 1), true)] st.
+Proof.
+  cbv zeta. split; [|exact I]. unfold nnn_block_ok. cbn [fst snd]. split.
+  - split; [simpl; lia|]. split; [simpl; lia|].
+    intros i r Hi Hr. simpl in Hi. assert (r = 0%nat) by lia; subst r. destruct i as [|[|i]]; [| |lia]; vm_compute; lra.
+  - intros _. cbn [shape length]. split; [lia|]. split; [reflexivity|].
+    cbn [seq normalize_ok fst snd].
+    assert (H : forall k (s0 : cpstate), scales_ok (mk [2;2]%nat [1;2;3;4]) 1 [2] [2] k s0).
+    { intros k s0 r Hr. assert (r = 0%nat) by lia; subst r. cbn [nth]. split; [lra | left; reflexivity]. }
+    split; [simpl; lia|]. split; [apply H|]. split; [simpl; lia|]. split; [apply H | exact I].
+Qed.
